@@ -299,6 +299,7 @@ def _source_bytes(src):
 
 
 _PROGRESS_FD = [None]
+_FOUND = []        # violation signatures found by this worker process so far
 
 
 def _worker_inproc(seed):
@@ -354,6 +355,10 @@ def _worker_inproc(seed):
     probes = {}
     fired = {}
     units = 0
+    if len(_FOUND) >= 3:
+        # this worker process has already produced several non-termination cases: do not spend its time on more of them
+        return {"problems": [], "digest": core.digest_of([seed, "skipped"]), "probes": {"batch-skipped-after-violations-in-this-worker": 1},
+                "faults": {}, "units": 0, "nontrivial": False, "sample": None, "case": None, "cases": 0, "skipped": {}, "extra": {}}
     if src["kind"] == "gen-axml":
         # the crafted document itself is a case (no storage fault on top)
         fired["crafted-document"] = 1
@@ -389,6 +394,8 @@ def _worker_inproc(seed):
         case_digests.append(dg)
         if _touches(faults, p["consumed"], len(data)):
             nontrivial.append(dg)
+        if len(problems) >= 2 or (problems and ci > 8):
+            break             # non-terminating cases are expensive (budget + extension window / real-time limit): enough found
         if oc == "native-stall":
             sig = f"C35:{kind}:native-stall"
             if sig not in problems:
@@ -409,6 +416,7 @@ def _worker_inproc(seed):
     case = None
     if problems:
         case = {"seed": seed, "src": src, "by_sig": {s: v["faults"] for s, v in problems.items()}}
+        _FOUND.extend(problems)
     probes.update({"outcome-" + k: v for k, v in outcomes.items()})
     return {"problems": [(s, v["msg"]) for s, v in sorted(problems.items())], "digest": core.digest_of(case_digests),
             "probes": probes, "faults": fired, "units": units, "nontrivial": False, "case_digests": case_digests,
@@ -417,7 +425,7 @@ def _worker_inproc(seed):
 
 
 BATCH_TIMEOUT_S = 240.0      # one batch normally takes 1-5 s
-CASE_TIMEOUT_S = 40.0        # one parse of a <= 64 KB input normally takes milliseconds
+CASE_TIMEOUT_S = 20.0        # one parse of a <= 64 KB input normally takes milliseconds
 
 
 def _in_child(fn, args, timeout, progress=False):
